@@ -17,17 +17,24 @@ def scenarios(quick):
             for w in (0, 3):
                 st = mk(m, w)
                 for starts in ((0, 0, 0), (0, 1, 2), (0, 0, 3)):
-                    for ds in ((2, 2, 2), (4, 1, 1), (1, 4, 2)):
+                    for ds in ((2, 2, 2), (4, 1, 1), (1, 4, 2), (3, 3, 1)):
                         for oc in (("R1", None), ("R0", "E1")):
                             fns = [[fn(d, oc[0], oc[1], True)] * 4 for d in ds]
                             base = [start(i + 1, at, asyn=(i == 2)) for i, at in enumerate(starts)]
+                            if ds == (3, 3, 1):
+                                # a permit that comes back on the very instant a waiter's max wait runs out (many steps on one
+                                # instant make the validation search expensive: the bulkhead alone, no further variants)
+                                if len(st) == 1 and w == 3:
+                                    out.append(scenario(st, fns, base))
+                                continue
                             out.append(scenario(st, fns, base))
                             for ct in ((1, 3) if quick else (0, 1, 2, 3, 4)):
                                 if ct >= starts[1]:          # (only an execution that has been started can be cancelled)
                                     out.append(scenario(st, fns, base + [env("CtxCancel", ct, 2)]))
-                            if w > 0:
+                            if w > 0 and len(st) <= 2:
                                 # the caller's deadline falls inside the wait for a permit, or on the instant the wait ends
-                                for x in (2, 3):
+                                # (two-layer stacks: a third layer multiplies the steps on that instant and the validation search)
+                                for x in ((2,) if quick else (2, 3)):
                                     out.append(scenario(st, fns, base + [env("CtxDeadline", starts[x - 1] + 1, x)]))
                                     out.append(scenario(st, fns, base + [env("CtxDeadline", starts[x - 1] + w, x)]))
                             for ct in ((2,) if quick else (1, 2, 3)):
